@@ -449,7 +449,9 @@ func TestVerif_C11(t *testing.T) {
 	for _, px := range []string{"trust-all/xri", "trust-set/xri", "trust-bad/xri"} {
 		cfgs = append(cfgs, c11Config{N: 2, Unit: "min", Proxy: px})
 	}
-	for _, sp := range [][2]string{{"sec", "Sec"}, {"min", "Min"}, {"hour", "Hour"}, {"hour", "HOUR"}, {"hour", " hour"}, {"day", "Day"}, {"min", "MIN "}} {
+	for _, sp := range [][2]string{{"sec", "Sec"}, {"min", "Min"}, {"hour", "Hour"}, {"hour", "HOUR"}, {"hour", " hour"}, {"day", "Day"}, {"min", "MIN "},
+		// the aliases the declaration syntax documents
+		{"sec", "second"}, {"sec", "s"}, {"hour", "hr"}, {"hour", "h"}, {"day", "d"}} {
 		cfgs = append(cfgs, c11Config{N: 2, Unit: sp[0], Spell: sp[1]})
 	}
 	cfgs = append([]c11Config{{N: 1, Unit: "min", Proxy: "flood"}, {N: 2, Unit: "min", Proxy: "flood"}}, cfgs...)
